@@ -397,11 +397,23 @@ def r16e(ctx: Context) -> None:
     if sites < 1500:
         raise AnalysisError(f"only {sites} ParserLogger call sites resolved (1 979 confirmed)")
     munge = prog.method(PLOG, "__munge")
-    vararg = munge.node.args.vararg.arg if munge.node.args.vararg else (munge.params[-1] if munge.params else "args")  # type: ignore[attr-defined]
-    verbatim = any(
-        isinstance(n, (ast.IfExp, ast.If)) and norm(n.test) in (vararg, f"not {vararg}")
-        for n in walk_local(munge.node)
-    )
+    # the '$' of a format is a placeholder only when arguments were given: every split of the format on '$'
+    # (in the formatter or a helper of it) is control-dependent on the argument list being non-empty
+    formatters = [munge] + [t for site in prog.sites_in(munge) for t in site.targets if t.cls == munge.cls]
+    splits = []
+    for formatter in formatters:
+        list_params = {a.arg for a in formatter.node.args.args if a.annotation is not None and ast.unparse(a.annotation).startswith(("List[", "Tuple[", "Sequence["))}  # type: ignore[attr-defined]
+        if formatter.node.args.vararg:  # type: ignore[attr-defined]
+            list_params.add(formatter.node.args.vararg.arg)  # type: ignore[attr-defined]
+        for node in walk_local(formatter.node):
+            if isinstance(node, ast.Call) and isinstance(node.func, ast.Attribute) and node.func.attr == "split" and node.args and isinstance(node.args[0], ast.Constant) and node.args[0].value == "$":
+                guarded = any(
+                    polarity and ((isinstance(test, ast.Name) and test.id in list_params) or (isinstance(test, ast.Call) and dotted(test.func) == "len" and test.args and isinstance(test.args[0], ast.Name) and test.args[0].id in list_params)
+                                  or (isinstance(test, ast.Compare) and any(isinstance(sub, ast.Name) and sub.id in list_params for sub in ast.walk(test))))
+                    for test, polarity in guards_of(formatter.node, node)
+                )
+                splits.append(guarded)
+    verbatim = bool(splits) and all(splits)
     if verbatim:
         rule.ok(func_key(munge) + ": argument-free formats", "logged verbatim")
     else:
